@@ -218,10 +218,15 @@ def thermal_kernel(vs):
         bp[r, IB.D] = 0.05
         bp[r, IB.DO] = 0.05 + 0.02 * (r % 2)
         bp[r, IB.AREA] = 0.05 ** 2 * np.pi / 4
-        bp[r, IB.FROM_NODE] = r % nn
-        bp[r, IB.TO_NODE] = (r * 5 + 3) % nn
+        if m == 0.0:
+            # branches without flow hang on nodes 5..8; nodes 7 and 8 see no flowing branch at all (stagnant nodes)
+            bp[r, IB.FROM_NODE] = 5 + r % 4
+            bp[r, IB.TO_NODE] = 7 + (r // 4) % 2
+        else:
+            bp[r, IB.FROM_NODE] = r % 7
+            bp[r, IB.TO_NODE] = (r * 5 + 3) % 7
         if bp[r, IB.FROM_NODE] == bp[r, IB.TO_NODE]:
-            bp[r, IB.TO_NODE] = (bp[r, IB.TO_NODE] + 1) % nn
+            bp[r, IB.TO_NODE] = (bp[r, IB.TO_NODE] + 1) % (9 if m == 0.0 else 7)
         bp[r, IB.FROM_NODE_T_SWITCHED] = m < -2e-11
     from pandapipes.pf.internals_toolbox import get_from_nodes_corrected, get_to_nodes_corrected
     fn = get_from_nodes_corrected(bp)
@@ -245,6 +250,28 @@ def thermal_kernel(vs):
     b = NB.derivatives_thermal_numba(npit.copy(), bp.copy(), old_n, lk_n, old_b, lk_b, fn.astype(np.int32), tn.astype(np.int32),
                                      t_i, t_i1, t_nt, t_n, cp_n, cp_b, rho, None, False, 293.15)
     info = {}
+    # the transient branch of the twins: previous-step temperatures differ from the current ones, per-pipe ambient
+    # temperatures differ from the ambient option
+    old_n2 = old_n + np.arange(nn).reshape(-1, 1) * 0.7
+    old_b2 = old_b - (np.arange(nb) % 5).reshape(-1, 1) * 1.3
+    at = NP.derivatives_thermal_np(npit.copy(), bp.copy(), old_n2, lk_n, old_b2, lk_b, fn, tn, t_i, t_i1, t_nt, t_n, cp_n, cp_b,
+                                   rho, 120.0, True, 293.15)
+    bt = NB.derivatives_thermal_numba(npit.copy(), bp.copy(), old_n2, lk_n, old_b2, lk_b, fn.astype(np.int32), tn.astype(np.int32),
+                                      t_i, t_i1, t_nt, t_n, cp_n, cp_b, rho, 120.0, True, 293.15)
+    for nm, x, y in zip(names, at, bt):
+        if nm == "infeed":
+            x = np.flatnonzero(x) if np.asarray(x).dtype == bool else np.asarray(x)
+            y = np.flatnonzero(y) if np.asarray(y).dtype == bool else np.asarray(y)
+            if sorted(np.asarray(x).tolist()) != sorted(np.asarray(y).tolist()):
+                vs.append(viol("twin_kernel_differs", "transient thermal infeed set numpy %s numba %s" % (sorted(x), sorted(y)),
+                               kernel="thermal_transient", output="infeed"))
+            continue
+        ok, msg = agree(x, y, 1e-12, atol=1e-12 * float(np.nanmax(np.abs(np.asarray(x, dtype=float)))) if len(x) else 0.0)
+        if not ok:
+            if nm in ("fn", "fnt", "fb"):
+                vs.append(viol("twin_kernel_differs", "transient thermal output %s: %s" % (nm, msg), kernel="thermal_transient", output=nm))
+            else:
+                info["informational_jacobian_difference_thermal_transient_%s" % nm] = 1
     for nm, x, y in zip(names, a, b):
         if nm == "infeed":
             # one twin returns node indices, the other a boolean node mask: compare as sets of nodes
